@@ -1,1 +1,73 @@
-//! Hooks for property C12 (empty until needed).
+//! Hooks for property C12 (copy, merge, rewrite and repair preserve the content they keep).
+//!
+//! * `save_trees`: store hand-built `Tree`s in a repository exactly the way
+//!   `commands::merge::merge_trees` / `TreeModifier::save_tree` store the trees they create
+//!   (tree `Packer` + `Indexer`, finalize both).
+//! * `merge_trees_mem`: run the crate-private `blob::tree::merge_trees` (and through it
+//!   `merge_nodes`) with an in-memory tree saver, so that the merged trees can be inspected
+//!   without going through the packer.
+use std::{cell::RefCell, cmp::Ordering, collections::BTreeMap};
+
+use crate::{
+    backend::{decrypt::DecryptWriteBackend, node::Node},
+    blob::{
+        BlobId, BlobType,
+        packer::{PackSizer, Packer},
+        tree::{self, Tree, TreeId},
+    },
+    error::{ErrorKind, RusticError, RusticResult},
+    index::{ReadIndex, indexer::Indexer},
+    repofile::SnapshotSummary,
+    repository::{IndexedTree, Repository},
+};
+
+/// Serialise and store the given trees (children before parents is the caller's business:
+/// a tree is stored as it is given).  Returns the tree ids in input order.
+pub fn save_trees<S: IndexedTree>(repo: &Repository<S>, trees: &[Tree]) -> RusticResult<Vec<TreeId>> {
+    let index = repo.index();
+    let indexer = Indexer::new(repo.dbe().clone()).into_shared();
+    let pack_sizer = PackSizer::from_config(
+        repo.config(),
+        BlobType::Tree,
+        index.total_size(BlobType::Tree),
+    );
+    let packer = Packer::new(
+        repo.dbe().clone(),
+        BlobType::Tree,
+        indexer.clone(),
+        pack_sizer,
+    )?;
+    let mut ids = Vec::new();
+    for tree in trees {
+        let (chunk, id) = tree.serialize().map_err(|err| {
+            RusticError::with_source(ErrorKind::Internal, "Failed to serialize tree.", err)
+        })?;
+        if !index.has_tree(&id) {
+            packer.add(chunk.into(), BlobId::from(*id))?;
+        }
+        ids.push(id);
+    }
+    _ = packer.finalize()?;
+    indexer.write().unwrap().finalize()?;
+    Ok(ids)
+}
+
+/// `blob::tree::merge_trees` on trees stored in `repo`, with a saver that keeps the
+/// created trees in memory.  Returns the id of the merged root and every tree the merge saved.
+pub fn merge_trees_mem<S: IndexedTree>(
+    repo: &Repository<S>,
+    trees: &[TreeId],
+    cmp: &impl Fn(&Node, &Node) -> Ordering,
+) -> RusticResult<(TreeId, BTreeMap<TreeId, Tree>)> {
+    let saved: RefCell<BTreeMap<TreeId, Tree>> = RefCell::new(BTreeMap::new());
+    let save = |tree: Tree| -> RusticResult<(TreeId, u64)> {
+        let (chunk, id) = tree.serialize().map_err(|err| {
+            RusticError::with_source(ErrorKind::Internal, "Failed to serialize tree.", err)
+        })?;
+        _ = saved.borrow_mut().insert(id, tree);
+        Ok((id, chunk.len() as u64))
+    };
+    let mut summary = SnapshotSummary::default();
+    let id = tree::merge_trees(repo.dbe(), repo.index(), trees, cmp, &save, &mut summary)?;
+    Ok((id, saved.into_inner()))
+}
